@@ -34,7 +34,7 @@ func runC06(w *World, r *Report, tier string) {
 		r.Fail("R1", "xmpp.(*Router).Match#loop", w.pos(rm.Pos()), "Router.Match does not range over r.routes in ascending order")
 	} else {
 		lp := loops[0]
-		calls := w.callsIn(rm, "xmpp.Route.Match")
+		calls := w.callsInH(rm, "xmpp.Route.Match")
 		ok := len(calls) == 1
 		detail := fmt.Sprintf("%d Route.Match calls", len(calls))
 		if ok {
@@ -97,7 +97,7 @@ func runC06(w *World, r *Report, tier string) {
 		detail := "Route.Match does not range over r.matchers"
 		if ok {
 			lp := loops[0]
-			calls := w.callsIn(rtm, "xmpp.Matcher.Match")
+			calls := w.callsInH(rtm, "xmpp.Matcher.Match")
 			if len(calls) != 1 {
 				ok, detail = false, fmt.Sprintf("%d Matcher.Match calls", len(calls))
 			} else {
@@ -158,7 +158,7 @@ func runC06(w *World, r *Report, tier string) {
 	// ---- R3 / R5 / R6 in Router.route
 	route := w.Func("xmpp.(*Router).route")
 	{
-		mcalls := w.callsIn(route, "xmpp.Router.Match")
+		mcalls := w.callsInH(route, "xmpp.Router.Match")
 		if len(mcalls) != 1 {
 			r.Undecided("R3", "xmpp.(*Router).route→Match", w.pos(route.Pos()), fmt.Sprintf("%d Router.Match calls", len(mcalls)))
 		} else {
@@ -229,7 +229,7 @@ func runC06(w *World, r *Report, tier string) {
 			})
 			r.Check(bad == "" && okArgs && nM > 0 && nU > 0, "R3", "xmpp.(*Router).route#dispatch", w.ipos(mc), bad, fmt.Sprintf("%d matched path(s) with one HandlePacket(s,p) of match.Handler; %d unmatched path(s) with none", nM, nU))
 			// isIq is the ok of p.(*stanza.IQ) at function level: the not-implemented call is unreachable without type IQ and get/set
-			niCalls := w.callsIn(route, "xmpp.iqNotImplemented")
+			niCalls := w.callsInH(route, "xmpp.iqNotImplemented")
 			okNI := len(niCalls) == 1
 			if okNI {
 				ni := niCalls[0].(ssa.Instruction)
@@ -261,7 +261,7 @@ func runC06(w *World, r *Report, tier string) {
 	// iqNotImplemented body
 	{
 		ni := w.Func("xmpp.iqNotImplemented")
-		sends := w.callsIn(ni, "xmpp.Sender.Send", "xmpp.Sender.SendRaw", "xmpp.Sender.SendIQ")
+		sends := w.callsInH(ni, "xmpp.Sender.Send", "xmpp.Sender.SendRaw", "xmpp.Sender.SendIQ")
 		ok := len(sends) == 1 && w.callKey(sends[0]) == "xmpp.Sender.Send"
 		detail := fmt.Sprintf("%d sends", len(sends))
 		if ok {
